@@ -144,6 +144,18 @@ def dAbcCloneGraph (s : DStore) (g newId : Val) : Except String Val × DStore :=
   | (.error e, s1) => (.error e, s1)
   | (.ok doc, s1) => dImportString s1 doc newId
 
+/-! ## `validate_graph` on the disjoint store -/
+
+/-- the disjoint store's graph as a one-graph store: what `get_graph(graph_id)` hands `validate_graph` -/
+def storeOfGraph (G : Graph Nat) : Store := ⟨G.nodes.map fun p => ⟨p.1, p.2⟩, G.edges, 0⟩
+
+/-- `NetworkXPropertyGraphDisjoint.validate_graph()`: the shared code run on `self.graphs[graph_id]`
+    (reading the defaultdict creates an empty entry for an unknown id) -/
+def dValidate (names : List String) (jsonOk : String → Bool) (s : DStore) (g : Val) : Except String Unit × DStore :=
+  match s.graphs.lookup g with
+  | some G => (validate names jsonOk (storeOfGraph G) g, s)
+  | none => (validate names jsonOk (storeOfGraph ⟨[], []⟩) g, { s with graphs := s.graphs ++ [(g, ⟨[], []⟩)] })
+
 /-! ## `enumerate_graph_nodes` / `enumerate_graph_nodes_to_string` (and `GraphML.nx_write_graphml`)
 
 `nx.read_graphml(file)`, every node without a (non-empty) `NodeID` gets a fresh uuid, then the graph is written
